@@ -2,7 +2,8 @@
 
 Model checking over histories of API calls and over fault points:
  * continuing objects (Tempo full memory / dkmax=2, MeanFieldTempo with 1 and 2 systems, PtTebd): every history
-   over the menu {compute(t_j) for every grid target j, get_dynamics()} up to depth 3 (quick) / 4 (thorough) is
+   over the menu {compute(t_j) for every grid target j, get_dynamics()/get_results(), q = all other read-only
+   accessors (get_current_density_matrix, get_augmented_mps, dynamics.times/.states)} up to depth 3 (quick) / 4 (thorough) is
    replayed on a freshly constructed real object; after every operation the dynamics must equal the single-call
    reference truncated at the furthest target so far.
  * fixed-end objects (PtTempo, GibbsTempo): every history over {compute, get result, get dynamics} up to depth 3.
@@ -204,6 +205,17 @@ def run_history(args):
             if op[0] == "c":
                 ret = do_compute(kind, obj, op[1])
                 furthest = op[1] if furthest is None else max(furthest, op[1])
+            elif op[0] == "q":
+                # every other read-only accessor of the object
+                if kind == "tebd":
+                    if obj.step is not None:
+                        obj.get_current_density_matrix(0)
+                        obj.get_current_density_matrix((0, 1))
+                        obj.get_augmented_mps()
+                else:
+                    d = obj.get_dynamics()
+                    if d is not None:
+                        d.times, d.states if hasattr(d, "states") else d.fields
             else:
                 if kind == "tebd":
                     if obj.step is not None:
@@ -389,7 +401,7 @@ def run(tier, seed):
     chain_pt()
     jobs = []
     for kind in kinds:
-        menu = [("c", j) for j in range(N + 1)] + [("g",)]
+        menu = [("c", j) for j in range(N + 1)] + [("g",), ("q",)]
         d = depth if kind != "mf2" else 3
         for L in range(1, d + 1):
             for h in itertools.product(menu, repeat=L):
